@@ -43,6 +43,38 @@ class RenderMonitor(Monitor):
 
     def end(self, r: Runner) -> None:
         self.check(r)
+        self.check_after_register_switch(r)
+
+    def check_after_register_switch(self, r: Runner) -> None:
+        """The same program on a register with the same ids at permuted positions (the detuning maps stay where they
+        are): everything rendered per atom follows the atoms' *new* positions, whatever was rendered before."""
+        import warnings
+        seq = r.seq
+        if self.tainted or seq.is_register_mappable() or not seq._building:
+            return
+        snap = snapshot(seq)
+        if not any(c["detmap"] is not None for c in snap["chans"].values()) or snap["flags"]["slm_targets"]:
+            return
+        ids = list(seq.register.qubit_ids)
+        if len(ids) < 2:
+            return
+        coords = [arr(seq.register.qubits[q]) for q in ids]
+        k = 1 + self.ctx.case_idx % (len(ids) - 1)
+        try:
+            with warnings.catch_warnings():
+                warnings.simplefilter("ignore")
+                reg2 = type(seq.register)(dict(zip(ids, coords[k:] + coords[:k])))
+                seq2 = seq.switch_register(reg2)
+        except Exception:
+            self.ctx.count("register_switch_refused")
+            return
+        self.ctx.count("rendered_again_after_register_switch")
+        old = r.seq
+        try:
+            r.seq = seq2
+            self.check(r)
+        finally:
+            r.seq = old
 
     def after(self, r: Runner, ev) -> None:
         if ev.exc is not None and ev.stage == "call":
@@ -134,8 +166,16 @@ class RenderMonitor(Monitor):
                 if len(cands) == 1:
                     slm = (set(snap["flags"]["slm_targets"]), cands.pop())
                 else:
-                    ctx.gray("slm-mask-tie")
-                    return
+                    # several global channels start their first pulse together: which of them lifts the mask is not
+                    # said; the sequence's own answer is taken if it is the end of one of them
+                    end = int(getattr(sm._slm_mask, "end", -1))
+                    if end in cands:
+                        ctx.count("slm_mask_tie_resolved_by_reported_end")
+                        slm = (set(snap["flags"]["slm_targets"]), end)
+                    else:
+                        ctx.violation("atom-view", f"SLM mask reported to end at {end}, the first pulses of the global "
+                                      f"channels starting first end at {sorted(cands)}", "slm-mask-end")
+                        return
         ref = render.per_atom(chans, qids, T, slm)
         # a channel that ends before the sequence while still idling in EOM mode: the statement does not say
         # whether the per-atom view keeps the off-detuning after the channel's own end -> gray for det there
@@ -179,14 +219,16 @@ class RenderMonitor(Monitor):
                     if np.any(want["amp"]) or np.any(want["det"]):
                         ctx.violation("atom-view", f"atom {q} basis {basis}: no local samples although it is driven", "atom-missing")
                     continue
-                g2 = {"amp": np.zeros(T), "det": np.zeros(T)}
+                g2 = {"amp": np.zeros(T), "det": np.zeros(T), "phase": np.zeros(T)}
                 if basis in glob.get("Global", {}):
                     g2["amp"] += glob["Global"][basis]["amp"]
                     g2["det"] += glob["Global"][basis]["det"]
+                    g2["phase"] += glob["Global"][basis]["phase"]
                 gl = glob["Local"].get(basis, {}).get(strmap[q])
                 if gl is not None:
                     g2["amp"] += gl["amp"]
                     g2["det"] += gl["det"]
+                    g2["phase"] += gl["phase"]
                 cut = open_from.get((basis, q))
                 if cut is not None:
                     ctx.gray("open-eom-after-channel-end")
@@ -211,6 +253,10 @@ class RenderMonitor(Monitor):
                     i = int(np.flatnonzero(one)[np.argmax(np.abs(got["phase"][one] - want["phase_one"][one]))])
                     ctx.violation("atom-view", f"atom {q} basis {basis}: phase[{i}]={got['phase'][i]!r}, pulse phase "
                                   f"{want['phase_one'][i]!r}", "atom-phase")
+                if np.any(one) and not np.allclose(g2["phase"][one], want["phase_one"][one], atol=1e-12, rtol=0):
+                    i = int(np.flatnonzero(one)[np.argmax(np.abs(g2["phase"][one] - want["phase_one"][one]))])
+                    ctx.violation("global-view", f"atom {q} basis {basis}: global+local phase[{i}]={g2['phase'][i]!r}, pulse "
+                                  f"phase {want['phase_one'][i]!r}", "global-phase")
                 if np.any(want["ncover"] > 1):
                     ctx.gray("overlapping-drives-phase")
         # atoms present in the output but never targeted must be silent
